@@ -225,7 +225,7 @@ def main():
         if fn in broken_fns:
             r = broken_fns[fn]
             violations.append((nm, r, {'status': r['status'], 'text': r['error'], 'results': [r['status']], 'models': [], 'traces': [], 'where': '', 'kind': 'lost'}, 'the function can no longer be verified: %s' % (r['error'] or '')[:300]))
-        elif prog is not None and not any(ir_short(prog, f) == fn for f in prog.funcs):
+        elif prog is not None and fn != '@owned' and not any(ir_short(prog, f) == fn.split(' @')[0] for f in prog.funcs):
             unbound.append(nm)
         elif fn not in [r['fn'] for r in results]:
             unbound.append(nm)
